@@ -15,6 +15,6 @@ rsync -a --exclude .git --exclude .cache --exclude 'replays/*.json' --exclude 'c
 sed -i "s|/repo/|$wt/|g; s|/repo\"|$wt\"|g" "$cp"/harness/*/Cargo.toml "$cp"/harness/clidrv/prepare.sh "$cp"/harness/build.sh
 cd "$cp"
 for p in "$@"; do
-  out=$(KESTREL_REPO=$wt VERIF_JOBS=${VERIF_JOBS:-6} ./check "$p" "$tier" 2>&1 | grep -E "^(VIOLATION|OK|KNOWN-FINDING)" | head -2 | sed "s|$cp|/verif|g")
+  out=$(KESTREL_REPO=$wt VERIF_JOBS=${VERIF_JOBS:-6} ./check "$p" "$tier" 2>&1 | grep -E "^(VIOLATION|OK|KNOWN-FINDING)" | sort -r | head -3 | tr "\n" " " | sed "s|$cp|/verif|g")
   echo "[$(basename $(dirname $patch))/$(basename $patch) $p] ${out:-<no verdict line>}"
 done
